@@ -16,6 +16,8 @@ def run(prog, rep, tier):
     r5 = r_stream.r5(prog)
     t1 = ([i for i in r5[0] if i[0].startswith("op_tr_closure::")], [f for f in r5[1] if f["key"].startswith("op_tr_closure::")])
     apply(rep, "R5", "T1: closure seen-set/work-list start clean for each input", t1, 2)
+    import r_order
+    apply(rep, "O5", "the seen-set's order on stacks is a strict weak order consistent with ==", r_order.o5(prog, tier), 1)
     apply(rep, "T2", "work-list push only after successful seen-set insertion", r_stream.t2(prog), 1)
     if tier == "thorough" and not os.environ.get("VERIF_NO_MUTANTS"):
         import mutants
